@@ -865,6 +865,7 @@ func (fr *Frame) appendOp(cc *ssa.CallCommon, args []Val, pos token.Pos) Val {
 	off := DataField_(s, 1)
 	newLen := BV("bvadd", ln, addLen)
 	fits := BVCmp("bvsle", newLen, cp)
+	c.splits = append(c.splits, fits)
 	n, known := uint64(0), false
 	if v, ok := addLen.IsLitBV(); ok && v <= 8 {
 		n, known = v, true
